@@ -18,7 +18,7 @@ LEVEL = 'exploration'
 RULE = ('case = block of cells of the matrix (primary flags, subkey flags..., operation, enforcement, form); one evaluation per cell; non-trivial cell = at least '
         'two components or a refusal expected; distinct = distinct cell descriptors (digest)')
 ASSUMPTIONS = ['flag sets are read from the most recent self-signature of each component through public attributes', 'when several components qualify any of them may be used (the model only requires that the one used qualifies)']
-MIN_COUNTERS = {'quick': {'cells': 3000, 'refusals_expected_and_seen': 350, 'components_confirmed_cryptographically': 1200, 'form_cells': 120, 'forms_after_unlock_attempts': 12},
+MIN_COUNTERS = {'quick': {'cells': 3000, 'refusals_expected_and_seen': 350, 'components_confirmed_cryptographically': 1200, 'form_cells': 120, 'forms_after_unlock_attempts': 12, 'aliased_set_cells': 6},
                 'thorough': {'cells': 12000}}
 BUDGET = {'quick': (600, 1500), 'thorough': (1800, 3600)}
 TECHNIQUE = 'runtime monitoring: exhaustive policy-matrix enumeration against a policy model; the component actually used is confirmed cryptographically by the reference'
@@ -66,6 +66,7 @@ def cases(tier, seed):
     cs.append({'t': 'users'})
     cs.append({'t': 'noident'})
     cs.append({'t': 'reflag'})
+    cs.append({'t': 'aliased'})
     cs.append({'t': 'unhashed'})
     return cs
 
@@ -530,6 +531,74 @@ def _reflag(ctx, d, pgpy):
                         ctx.count('refusals_expected_and_seen')
                     elif res[0] == 'sig':
                         check_sig_names_user(ctx, res[1], res[2], allowed, where)
+    ctx.nontrivial(d)
+
+
+def _aliased(ctx, d, pgpy):
+    """the caller builds one usage set and keeps using (and changing) that very object for the next component: the flags a component was given are
+    those at the time it was given them.  Checked on the live key, its public twin and after export/import: who carries out sign / encrypt."""
+    from pgpy.constants import KeyFlags, CompressionAlgorithm
+    msg = pgpy.PGPMessage.new('aliased', compression=CompressionAlgorithm.Uncompressed)
+    for variant in ('grow', 'refill', 'identity'):
+        k = pool.pgpy_bare('ed25519_0')
+        usage = {KeyFlags.Certify}
+        k.add_uid(pgpy.PGPUID.new('Aliased Sets'), usage=usage, hashes=[pgpy.constants.HashAlgorithm.SHA256])
+        a, b = pool.pgpy_bare('ed25519_1'), pool.pgpy_bare('ed25519_2')
+        e = pool.pgpy_bare('cv25519_1')
+        if variant == 'grow':
+            usage = {KeyFlags.Authentication}
+            k.add_subkey(a, usage=usage)
+            usage.add(KeyFlags.Sign)
+            k.add_subkey(b, usage=usage)
+            expect_signer, expect_flags_a = b, {KeyFlags.Authentication}
+        elif variant == 'refill':
+            usage = {KeyFlags.Sign}
+            k.add_subkey(a, usage=usage)
+            usage.clear()
+            usage.update({KeyFlags.EncryptCommunications, KeyFlags.EncryptStorage})
+            k.add_subkey(e, usage=usage)
+            usage.clear()
+            expect_signer, expect_flags_a = a, {KeyFlags.Sign}
+        else:
+            # the set given to the identity is emptied afterwards: the primary keeps Certify (and may still bind)
+            usage.clear()
+            k.add_subkey(a, usage={KeyFlags.Sign})
+            expect_signer, expect_flags_a = a, {KeyFlags.Sign}
+        for form, kk in (('live', k), ('reimported', pgpy.PGPKey.from_blob(bytes(k))[0])):
+            ctx.count('cells')
+            ctx.count('aliased_set_cells')
+            ctx.count('evaluations')
+            where = {'variant': variant, 'form': form}
+            suba = kk.subkeys[a.fingerprint.keyid]
+            got = set(suba._get_key_flags()) if hasattr(suba, '_get_key_flags') else None
+            bsig = next(iter(suba.self_signatures), None)
+            if bsig is None or set(bsig.key_flags) != expect_flags_a:
+                ctx.fail('flags-of-a-component-follow-a-set-changed-after-it-was-given', dict(where, flags=sorted(str(x) for x in (bsig.key_flags if bsig else []))))
+            try:
+                s_ = kk.sign('aliased')
+                if s_.signer != expect_signer.fingerprint.keyid:
+                    ctx.fail('operation-carried-out-by-component-without-the-capability', dict(where, signer=s_.signer, expected=str(expect_signer.fingerprint.keyid)))
+                elif not kk.pubkey.verify('aliased', s_):
+                    ctx.fail('signature-of-chosen-component-does-not-verify', where)
+                else:
+                    ctx.count('components_confirmed_cryptographically')
+            except pgpy.errors.PGPError as ex:
+                ctx.fail('capable-component-refused', dict(where, err=str(ex)[:120]))
+            if variant == 'refill':
+                try:
+                    enc = kk.pubkey.encrypt(msg)
+                    kid = [p_ for p_ in __import__('vf.ref.wire', fromlist=['x']).split(bytes(enc)) if p_.tag == 1][0].body[1:9]
+                    if kid.hex().upper() != str(e.fingerprint.keyid):
+                        ctx.fail('operation-carried-out-by-component-without-the-capability', dict(where, op='encrypt', recipient=kid.hex()))
+                except pgpy.errors.PGPError as ex:
+                    ctx.fail('capable-component-refused', dict(where, op='encrypt', err=str(ex)[:120]))
+            if variant == 'identity':
+                if KeyFlags.Certify not in set(kk.userids[0].selfsig.key_flags):
+                    ctx.fail('flags-of-a-component-follow-a-set-changed-after-it-was-given', dict(where, component='identity'))
+            # the self-signatures still verify (a flag subpacket that changed after signing breaks them)
+            sv = kk.pubkey.verify(kk.pubkey) if form == 'live' else kk.verify(kk)
+            if not sv:
+                ctx.fail('self-signatures-fail', dict(where, bad=len(list(sv.bad_signatures))))
     ctx.nontrivial(d)
 
 
